@@ -3,6 +3,7 @@
 # on the changed tree (expect exit 1) and on the restored tree (expect exit 0).
 seed=$1; p=$2
 cd /verif
+export VERIF_EVID=/tmp/verif_evid_scratch; mkdir -p $VERIF_EVID
 git -C /repo apply /verif/seeded/$seed/patch.diff || exit 2
 out=$(./check $p 2>&1)
 f=$(echo "$out" | grep -o 'replay=[^ ]*' | head -1 | cut -d= -f2)
